@@ -393,6 +393,11 @@ fn ctap_level(rep: &mut Report, seed: u64, idx: u64) {
             }
             continue;
         }
+        // evaluation at creation was asked for in a ceremony without verification and the new credential
+        // has no secret for such ceremonies: that is an error, not a success without results
+        if cfg.hmac_mc && eval.is_some() && prf.is_some() && !verified && stored.hmac_uv.is_some() && stored.hmac_no_uv.is_none() {
+            rep.violate("ctap: registration succeeded although a PRF evaluation was asked for, the user was not verified and the credential has no non-gated secret", format!("prf output {:?}", out.map(|o| (o.enabled, o.results.is_some()))), case.clone());
+        }
         if let Some(o) = out {
             rep.count("ctap_enabled_checked");
             if o.enabled != stored.hmac_uv.is_some() {
